@@ -35,8 +35,9 @@ func isSpace(c byte) bool {
 }
 
 type xmpReader struct {
-	r *bufio.Reader
-	a bool
+	r   *bufio.Reader
+	a   bool
+	eof bool // the underlying reader is exhausted: look-aheads are served from what is buffered
 }
 
 func newXMPReader(r io.Reader) xmpReader {
@@ -86,7 +87,20 @@ func (br *xmpReader) hasAttribute() bool {
 }
 
 func (br *xmpReader) Peek(n int) (buf []byte, err error) {
+	if br.eof && n > br.r.Buffered() {
+		// Do not ask an exhausted reader again (every look-ahead past the end of
+		// the data would cost another read of the underlying reader).
+		buf, _ = br.r.Peek(br.r.Buffered())
+		if n > br.r.Size() {
+			return buf, bufio.ErrBufferFull // as bufio.Reader.Peek reports a request beyond its buffer
+		}
+		if len(buf) > 4 {
+			return buf, nil
+		}
+		return buf, io.EOF
+	}
 	if buf, err = br.r.Peek(n); err == io.EOF {
+		br.eof = true
 		if len(buf) > 4 {
 			return buf, nil
 		}
